@@ -116,7 +116,7 @@ class Canon:
             return 5
         if k in ("tup", "btup", "P", "B"):
             return 6
-        if k in ("struct", "S"):
+        if k in ("struct", "S", "sproto"):
             return 7
         if k in ("buf", "U"):
             return 8
@@ -183,6 +183,9 @@ class Canon:
         if k == "struct":
             kvs = [(d[i], d[i + 1]) for i in range(1, len(d), 2)]
             return "{" + self._pairs(kvs, seen) + "}"
+        if k == "sproto":
+            kvs = [(d[i], d[i + 1]) for i in range(2, len(d), 2)]
+            return "{" + self._pairs(kvs, seen) + "}^" + self._go(d[1], seen)
         ident = self._ident(d)
         if k == "n":
             node = self.nodes[d[1]]
@@ -374,7 +377,7 @@ def jdesc(d):
         return ":" + d[1]
     if k in ("s64", "u64"):
         return '[:%s "%d"]' % (k, d[1])
-    if k in ("arr", "tup", "btup", "tab", "struct", "warr", "wtabk", "wtabv", "wtabkv", "proto"):
+    if k in ("arr", "tup", "btup", "tab", "struct", "warr", "wtabk", "wtabv", "wtabkv", "proto", "sproto"):
         return "[:%s %s]" % (k, " ".join(jdesc(x) for x in d[1:]))
     raise ValueError(d)
 
